@@ -464,14 +464,18 @@ class CallMixin:
         if name in ("range", "xrange"):
             return END, V("list", taint, elem=V("int"))
         if name == "enumerate" and a0 is not None:
-            return END, V("list", a0.taint, elem=V("tuple", elem=join(V("int"), a0.elem or unknown())))
+            e0 = a0.elem or unknown()
+            # (index, element): the index is a plain int whatever the elements are
+            return END, V("list", a0.taint, elem=V("tuple", elem=join(V("int"), e0), items=[V("int"), e0]))
         if name == "zip":
             el = None
             t = False
+            its = []
             for a in args:
                 el = join(el, a.elem if a.elem is not None else unknown())
+                its.append(a.elem if a.elem is not None else unknown())
                 t = t or a.taint
-            return END, V("list", t, elem=V("tuple", elem=el))
+            return END, V("list", t, elem=V("tuple", elem=el, items=its))
         if name in ("reversed", "list", "tuple", "sorted", "iter", "set", "frozenset"):
             if a0 is None:
                 return END, listof(V("never"), "list" if name not in ("tuple",) else "tuple")
